@@ -5,7 +5,7 @@
 use std::ffi::c_int;
 use std::io::{self, Write};
 use std::ptr::{self, NonNull, null_mut};
-use std::slice;
+use std::sync::{Mutex, PoisonError};
 
 use memchr_rs::memchr;
 
@@ -78,51 +78,61 @@ impl VirtualMemory for UnixVirtualMemory {
 
 pub struct UnixStdin;
 
+/// Input that has been read from stdin but not yet returned by [`UnixStdin::read_line`].
+///
+/// `read(2)` hands over whatever the pipe, file or terminal has ready, which is often
+/// more than one line, so the bytes behind the newline must survive until the next call.
+static PENDING: Mutex<Vec<u8>> = Mutex::new(Vec::new());
+
 impl Stdin for UnixStdin {
     fn read_line<'a>(prompt: &Value<'a>, arena: &'a Arena) -> Result<ArenaString<'a>, io::Error> {
         print!("{prompt}");
         io::stdout().flush()?;
 
-        let mut cap = 8 * KIBI;
-        let mut buf = ArenaString::with_capacity_in(cap, arena);
-        let mut len = 0;
+        let mut pending = PENDING.lock().unwrap_or_else(PoisonError::into_inner);
+        let pending = &mut *pending;
+        // `pending[..scanned]` is known to hold no newline.
+        let mut scanned = 0;
 
-        loop {
-            if len == cap {
-                cap *= 2;
-                buf.reserve_exact(cap - buf.capacity());
+        let end = loop {
+            let index = memchr(b'\n', pending, scanned);
+            if index < pending.len() {
+                break index;
+            }
+            scanned = pending.len();
+
+            if pending.len() == pending.capacity() {
+                pending.reserve_exact(pending.capacity().max(8 * KIBI));
             }
 
-            let count = cap - len;
-            let base = buf.as_ptr();
-
+            let spare = pending.spare_capacity_mut();
             let n = unsafe {
-                libc::read(libc::STDIN_FILENO, base.add(len) as *mut libc::c_void, count)
+                libc::read(libc::STDIN_FILENO, spare.as_mut_ptr() as *mut libc::c_void, spare.len())
             };
             if n < 0 {
                 return Err(io::Error::last_os_error());
             }
             if n == 0 {
-                // EOF
-                break;
+                // EOF: whatever is left is the last line.
+                break pending.len();
             }
-            let n = n.cast_unsigned();
 
-            len += n;
-
-            let hay = unsafe { slice::from_raw_parts(base, len) };
-            let index = memchr(b'\n', hay, len - n);
-            if index < len {
-                len = index;
-                break;
+            let len = pending.len() + n.cast_unsigned();
+            unsafe {
+                pending.set_len(len);
             }
-        }
+        };
 
+        let mut line = ArenaString::with_capacity_in(end, arena);
         unsafe {
-            buf.as_mut_vec().set_len(len);
+            line.as_mut_vec().extend_from_slice(&pending[..end]);
         }
 
-        Ok(buf)
+        // Drop the line and its newline, keep the rest for the next call.
+        let consumed = pending.len().min(end + 1);
+        pending.drain(..consumed);
+
+        Ok(line)
     }
 }
 
